@@ -676,17 +676,39 @@ def _my_percent(self, other):
 # --------------------------------------------------------------------------
 # cuts: decoration of error reports
 # --------------------------------------------------------------------------
+def _bytes_text(obj):
+    """text of repr(bytes-like) / str(bytes-like) for symbolic input.
+    * hex text (what b2a_hex / hexlify returned): repr is exactly  b'<the hex digits>'  - faithful, and symbolic
+      (two code points per octet), so decoded values such as an unknown TLV's  str(b2a_hex(value))  compare by content;
+    * raw symbolic bytes: the real repr escapes octet by octet (a fork per octet class); it only decorates error
+      reports, so it is CUT to an injective stand-in  b'<hex of the octets>'  (equal texts <=> equal octets);
+      empty or fully concrete content gets the real repr."""
+    with NoTracing():
+        is_hex = isinstance(obj, HexOfBytes)
+    if is_hex:
+        return "b'" + obj.decode() + "'"
+    n = len(obj)
+    if n == 0:
+        return "b''"
+    items = [obj[i] for i in range(n)]
+    with NoTracing():
+        concrete = all(type(x) is int for x in items)
+    if concrete:
+        return repr(bytes(items))
+    STATS['repr_cut'] += 1
+    return "b'" + HexOfBytes(obj).decode() + "'"
+
+
 def _my_repr(obj):
     with NoTracing():
         cut = isinstance(obj, (BytesLike, HexOfBytes))
     if cut:
-        STATS['repr_cut'] += 1
-        return '<repr of symbolic bytes>'
+        return _bytes_text(obj)
     return repr(obj)
 
 
 def _my_str(*a, **kw):
-    # CUT: str(symbolic bytes) is the repr of the bytes - only ever used to decorate error reports
+    # str(bytes-like) is the repr of the bytes
     if len(a) == 1 and not kw:
         with NoTracing():
             cut = isinstance(a[0], (BytesLike, HexOfBytes))
@@ -694,8 +716,7 @@ def _my_str(*a, **kw):
         if is_rope:
             return a[0]
         if cut:
-            STATS['repr_cut'] += 1
-            return '<str of symbolic bytes>'
+            return _bytes_text(a[0])
     return str(*a, **kw)
 
 
